@@ -6,6 +6,7 @@ From RP2V Require Import Model.EntryL6.
 From RP2V Require Import Model.EntryOpenPos.
 From RP2V Require Import Model.Generated Model.EntryTaxReport.
 From RP2V Require Import Model.EntryC05Env.
+From RP2V Require Import Model.EntryOds.
 Open Scope Z_scope.
 
 Definition entry (cmd : Z) (args : list Z) : list Z :=
@@ -18,6 +19,7 @@ Definition entry (cmd : Z) (args : list Z) : list Z :=
   if cmd =? 12 then entry_match_repush args else
   if cmd =? 13 then entry_events args else
   if cmd =? 30 then entry_computed args else
+  if cmd =? 31 then entry_ods args else
   if cmd =? 40 then entry_parse args else
   if cmd =? 80 then entry_jp args else
   if cmd =? 81 then entry_jp_repaired args else
